@@ -172,12 +172,7 @@ def run(ctx):
             # oracle on the implementation, independent of the model: unique containing interval / None / overlap rejected
             ctx.cov['impl_oracle_evaluations'] += 1
             st = [M.inst(t, tz) for t in p['start']]
-            if 'end' in p:
-                en = [M.inst(t, tz) for t in p['end']]
-            elif len(st) == 1:
-                en = [None]
-            else:
-                en = st[1:] + [st[-1] + 2 * (st[-1] - st[-2])]
+            en = M.implicit_ends(p, tz)
             hits = [[k for k, (a, b) in enumerate(zip(st, en)) if a <= q and (b is None or q < b)] for q in tp]
             overlap = any(len(h) > 1 for h in hits)
             if overlap != (r['status'] == 'ValueError'):
